@@ -105,3 +105,35 @@ def term_text_verbatim(prog):
             out.append((n, ok, 'the text is the input text up to blanks, a leading sign and enclosing parentheses' if ok else
                         'the stored text `%s` is re-assembled / transformed, not the text that was passed in' % unparse(v)))
     return init, out
+
+
+def registration_always_recorded(prog, attr, n_fields):
+    """methods that append to self.<attr> record their arguments on every normal path.
+    -> [(funcinfo, ok, why)]"""
+    out = []
+    for rf in prog.all_functions():
+        apps = [c for c in ast.walk(rf.node) if isinstance(c, ast.Call) and call_name(c) == 'append' and
+                isinstance(c.func, ast.Attribute) and isinstance(c.func.value, ast.Attribute) and c.func.value.attr == attr and
+                isinstance(c.func.value.value, ast.Name) and c.func.value.value.id == 'self']
+        if not apps or rf.name == '__init__':
+            continue
+        fl = flatten(prog, rf)
+        g = cfgmod.build(fl)
+        nodes = [nd for nd in g.stmt_nodes() if nd.kind == 'stmt' and any(
+            isinstance(c, ast.Call) and call_name(c) == 'append' and isinstance(c.func, ast.Attribute) and
+            isinstance(c.func.value, ast.Attribute) and c.func.value.attr == attr for c in ast.walk(nd.ast))]
+        always = bool(nodes) and g.must_pass(g.entry, g.exit, nodes)
+        params = fl.params()[1:]
+        args_ok = True
+        for nd in nodes:
+            for c in ast.walk(nd.ast):
+                if isinstance(c, ast.Call) and call_name(c) == 'append' and c.args and isinstance(c.func.value, ast.Attribute) \
+                        and c.func.value.attr == attr:
+                    a0 = c.args[0]
+                    args_ok = args_ok and isinstance(a0, ast.Tuple) and len(a0.elts) >= n_fields and \
+                        [unparse(x) for x in a0.elts[:n_fields]] == params[:n_fields]
+        why = 'every call records its arguments in %s' % attr if (always and args_ok) else (
+            'a call can return without recording (%s is appended only on some paths)' % attr if not always else
+            'the recorded tuple is not the arguments of the call')
+        out.append((rf, always and args_ok, why))
+    return out
